@@ -137,6 +137,7 @@ pub fn generate(tier: &str, rng: &mut Rng) -> Vec<String> {
     out.extend(gen_sided(tier, rng));
     out.extend(gen_more(tier, rng));
     out.extend(gen_late(tier, rng));
+    out.extend(gen_multi(tier, rng));
     out
 }
 
@@ -214,6 +215,26 @@ pub fn execute(case: &str) -> String {
             let cs: Option<Vec<u128>> = if *cs == "-" { Some(vec![]) } else { cs.split(',').map(|x| x.parse().ok()).collect() };
             let (Some(cs), Some(so), Some(eo), Ok(l)) = (cs, ops(sops), ops(eops), l.parse()) else { return "bad-case".into() };
             seq_case(cs, so, eo, l)
+        }
+        ["mw", s, rest @ ..] => {
+            let (Some(s), Some(calls)) = (opt_ns(s), parse_calls(rest)) else { return "bad-case".into() };
+            mw_case(s, calls)
+        }
+        ["chan", peer, e, rest @ ..] => {
+            let (Some(peer), Some(e), Some(calls)) = (plain_peer(peer), opt_ns(e), parse_calls(rest)) else { return "bad-case".into() };
+            chan_case(peer, e, None, calls)
+        }
+        ["chano", peer, e, g, rest @ ..] => {
+            let (Some(peer), Some(e), Ok(g), Some(calls)) = (plain_peer(peer), opt_ns(e), g.parse(), parse_calls(rest)) else { return "bad-case".into() };
+            chan_case(peer, e, Some(g), calls)
+        }
+        ["conn", s, rest @ ..] => {
+            let (Some(s), Some(calls)) = (opt_ns(s), parse_calls(rest)) else { return "bad-case".into() };
+            conn_case(s, None, calls)
+        }
+        ["conno", s, g, rest @ ..] => {
+            let (Some(s), Ok(g), Some(calls)) = (opt_ns(s), g.parse(), parse_calls(rest)) else { return "bad-case".into() };
+            conn_case(s, Some(g), calls)
         }
         ["encs", ds @ ..] if !ds.is_empty() => {
             let mut req = tonic::Request::new(());
@@ -1556,5 +1577,443 @@ pub fn gen_late(tier: &str, rng: &mut Rng) -> Vec<String> {
             }
         }
     }
+    out
+}
+
+// ===== several calls through ONE middleware / ONE Channel / ONE server connection =====
+//   mw <configured ns|none> (<caller> <latency ns|never>)+
+//     ONE `GrpcTimeout` value (hook, under `RecoverError`) called once per pair, one call after the
+//     other; the wrapped service answers call i after its latency (or never).
+//   chan <silent|routes> <Endpoint::timeout ns|none> (<caller> <latency ns|never>)+
+//     ONE real `Channel` (its client stack, incl. the one `GrpcTimeout`, lives in the Buffer worker) on
+//     ONE connection to a peer that enforces nothing (as in `cli`); the calls are issued one after
+//     the other, each when the previous one has completed (or was given up as `pending`).
+//   chano <silent|routes> <Endpoint::timeout ns|none> <gap ns> (<caller> <latency ns|never>)+
+//     the same from clones of the `Channel` in separate tasks, call i dispatched at `i * gap`
+//     (gap 0: all at once), so that calls overlap.
+//   conn <Server::timeout ns|none> (<grpc-timeout header> <handler latency ns|never>)+
+//   conno <Server::timeout ns|none> <gap ns> (<grpc-timeout header> <handler latency ns|never>)+
+//     ONE HTTP/2 connection of a bare h2 client (as in `srv`) to a real `transport::Server`, several
+//     requests with their own grpc-timeout headers, one after the other / overlapping.
+// The peer learns call i's latency from the request itself (header `verif-latency`), so nothing
+// depends on the order in which it sees the requests.
+// observed: one segment per call, in case order, joined by ` | `; a segment is as for `cli`:
+// `inner <t>` | `timeout <code> <hex message> <t>` | `pending`, `t` = virtual ns between issuing THAT
+// call and its completion.
+
+const LAT_HDR: &str = "verif-latency";
+
+fn hdr_latency(h: &HeaderMap) -> Option<u128> {
+    h.get(LAT_HDR)?.to_str().ok()?.parse().ok()
+}
+
+fn parse_calls(toks: &[&str]) -> Option<Vec<(Caller, Option<u128>)>> {
+    if toks.is_empty() || toks.len() % 2 != 0 {
+        return None;
+    }
+    toks.chunks(2).map(|p| Some((caller(p[0])?, lat_ns(p[1])?))).collect()
+}
+
+fn plain_peer(x: &str) -> Option<Peer> {
+    match x {
+        "silent" => Some(Peer::Silent),
+        "routes" => Some(Peer::Routes),
+        _ => None,
+    }
+}
+
+fn mw_case(s: Option<u128>, calls: Vec<(Caller, Option<u128>)>) -> String {
+    let mut reqs = Vec::new();
+    for (c, l) in &calls {
+        let mut treq = tonic::Request::new(());
+        if !c.apply(&mut treq) {
+            return "not-a-header-value".into();
+        }
+        reqs.push((treq.metadata().clone().into_headers(), *l));
+    }
+    let rt = paused_rt();
+    rt.block_on(async move {
+        // the wrapped service: the request's body says when its answer is due
+        let inner = tower::service_fn(|req: http::Request<Option<u128>>| {
+            let due = req.body().map(|l| tokio::time::sleep(dur(l)));
+            async move {
+                match due {
+                    Some(d) => d.await,
+                    None => std::future::pending::<()>().await,
+                }
+                Ok::<_, tonic::Status>(http::Response::new(()))
+            }
+        });
+        // ONE middleware value for the whole sequence
+        let mut svc = tonic::service::RecoverError::new(GrpcTimeoutHook::new(inner, s.map(dur)));
+        let mut out: Vec<String> = Vec::new();
+        for (headers, l) in reqs {
+            let mut req = http::Request::new(l);
+            *req.headers_mut() = headers;
+            let svc = svc.ready().await.unwrap();
+            let start = tokio::time::Instant::now();
+            let fut = svc.call(req);
+            out.push(match tokio::time::timeout(HORIZON, fut).await {
+                Err(_) => "pending".into(),
+                Ok(Ok(resp)) => {
+                    let t = start.elapsed().as_nanos();
+                    match tonic::Status::from_header_map(resp.headers()) {
+                        None => format!("inner {}", t),
+                        Some(st) => format!("timeout {} {} {}", st.code() as i32, hex(st.message().as_bytes()), t),
+                    }
+                }
+                Ok(Err(e)) => {
+                    let st = tonic::Status::from_error(e);
+                    format!("unrecovered {} {} {}", st.code() as i32, hex(st.message().as_bytes()), start.elapsed().as_nanos())
+                }
+            });
+        }
+        out.join(" | ")
+    })
+}
+
+/// `bare_h2_peer` (whole response at once), the latency taken from each request.
+async fn bare_h2_peer_hdr(io: tokio::io::DuplexStream) {
+    let Ok(mut conn) = h2::server::handshake(io).await else { return };
+    while let Some(next) = conn.accept().await {
+        let Ok((req, mut respond)) = next else { return };
+        tokio::spawn(async move {
+            let latency = hdr_latency(req.headers());
+            let _keep_request_open = req;
+            let head = http::Response::builder()
+                .status(200)
+                .header("content-type", "application/grpc")
+                .body(())
+                .unwrap();
+            wait(latency).await;
+            let Ok(mut stream) = respond.send_response(head, false) else { return };
+            let _ = stream.send_data(ok_message(), false);
+            let _ = stream.send_trailers(ok_trailers());
+        });
+    }
+}
+
+/// `SleepSvc`, the latency taken from each request.
+#[derive(Clone)]
+struct HdrSleepSvc;
+impl tonic::server::NamedService for HdrSleepSvc {
+    const NAME: &'static str = "verif.Sleep";
+}
+impl tower::Service<http::Request<tonic::body::Body>> for HdrSleepSvc {
+    type Response = http::Response<tonic::body::Body>;
+    type Error = std::convert::Infallible;
+    type Future = std::pin::Pin<Box<dyn std::future::Future<Output = Result<Self::Response, Self::Error>> + Send>>;
+    fn poll_ready(&mut self, _cx: &mut std::task::Context<'_>) -> std::task::Poll<Result<(), Self::Error>> {
+        std::task::Poll::Ready(Ok(()))
+    }
+    fn call(&mut self, req: http::Request<tonic::body::Body>) -> Self::Future {
+        SleepSvc(hdr_latency(req.headers())).call(req)
+    }
+}
+
+async fn routes_peer_hdr(io: tokio::io::DuplexStream) {
+    let routes = tonic::service::Routes::new(HdrSleepSvc);
+    let svc = hyper_util::service::TowerToHyperService::new(routes);
+    let _ = hyper::server::conn::http2::Builder::new(hyper_util::rt::TokioExecutor::new())
+        .timer(hyper_util::rt::TokioTimer::new())
+        .serve_connection(hyper_util::rt::TokioIo::new(io), svc)
+        .await;
+}
+
+/// One unary call on (a clone of) the channel, observed as in `cli`.
+async fn one_channel_call(channel: tonic::transport::Channel, req: tonic::Request<Vec<u8>>) -> String {
+    let mut grpc = tonic::client::Grpc::new(channel);
+    let fut = async {
+        if grpc.ready().await.is_err() {
+            return "not-ready".to_string();
+        }
+        let start = tokio::time::Instant::now();
+        let r = grpc.unary(req, "/verif.Sleep/Unary".parse().unwrap(), crate::c03::RawCodec).await;
+        let t = start.elapsed().as_nanos();
+        match r {
+            Ok(_) => format!("inner {}", t),
+            Err(st) => format!("timeout {} {} {}", st.code() as i32, hex(st.message().as_bytes()), t),
+        }
+    };
+    match tokio::time::timeout(HORIZON, fut).await {
+        Ok(o) => o,
+        Err(_) => "pending".to_string(),
+    }
+}
+
+fn chan_case(peer: Peer, e: Option<u128>, gap: Option<u128>, calls: Vec<(Caller, Option<u128>)>) -> String {
+    let mut reqs = Vec::new();
+    for (c, l) in &calls {
+        let mut req = tonic::Request::new(vec![1u8]);
+        if !c.apply(&mut req) {
+            return "not-a-header-value".into();
+        }
+        req.metadata_mut().insert(LAT_HDR, lat_tok(*l).parse().unwrap());
+        reqs.push(req);
+    }
+    let rt = paused_rt();
+    rt.block_on(async move {
+        let (cli, srv) = tokio::io::duplex(64 * 1024);
+        match peer {
+            Peer::Routes => drop(tokio::spawn(routes_peer_hdr(srv))),
+            _ => drop(tokio::spawn(bare_h2_peer_hdr(srv))),
+        }
+        let mut ep = tonic::transport::Endpoint::from_static("http://[::]:50051");
+        if let Some(e) = e {
+            ep = ep.timeout(dur(e));
+        }
+        let mut cli = Some(cli);
+        // ONE channel, ONE connection (the connector hands out the duplex once)
+        let channel = match ep
+            .connect_with_connector(tower::service_fn(move |_: http::Uri| {
+                let c = cli.take();
+                async move { c.map(hyper_util::rt::TokioIo::new).ok_or_else(|| std::io::Error::other("used")) }
+            }))
+            .await
+        {
+            Ok(ch) => ch,
+            Err(_) => return "connect-failed".to_string(),
+        };
+        let mut out: Vec<String> = Vec::new();
+        match gap {
+            None => {
+                for req in reqs {
+                    out.push(one_channel_call(channel.clone(), req).await);
+                }
+            }
+            Some(g) => {
+                let mut tasks = Vec::new();
+                for (i, req) in reqs.into_iter().enumerate() {
+                    let ch = channel.clone();
+                    tasks.push(tokio::spawn(async move {
+                        if g > 0 && i > 0 {
+                            tokio::time::sleep(dur(g * i as u128)).await;
+                        }
+                        one_channel_call(ch, req).await
+                    }));
+                }
+                for t in tasks {
+                    out.push(t.await.unwrap_or_else(|_| "panic".to_string()));
+                }
+            }
+        }
+        out.join(" | ")
+    })
+}
+
+/// One request of the bare h2 client (as in `srv`): sends the header values as they are, enforces
+/// nothing, reads the reply to its end.
+async fn one_h2_request(h2c: h2::client::SendRequest<bytes::Bytes>, hv: Vec<HeaderValue>, latency: Option<u128>) -> String {
+    let fut = async {
+        let Ok(mut h2c) = h2c.ready().await else { return "not-ready".to_string() };
+        let mut b = http::Request::builder()
+            .method("POST")
+            .uri("http://localhost/verif.Sleep/Unary")
+            .header("content-type", "application/grpc")
+            .header("te", "trailers")
+            .header(LAT_HDR, lat_tok(latency));
+        for v in &hv {
+            b = b.header("grpc-timeout", v.clone());
+        }
+        let start = tokio::time::Instant::now();
+        let Ok((resp, mut send)) = h2c.send_request(b.body(()).unwrap(), false) else { return "send-failed".to_string() };
+        if send.send_data(bytes::Bytes::from_static(&[0, 0, 0, 0, 1, 1]), true).is_err() {
+            return "send-failed".to_string();
+        }
+        let resp = match resp.await {
+            Ok(r) => r,
+            Err(_) => return format!("reset {}", start.elapsed().as_nanos()),
+        };
+        let (parts, mut body) = resp.into_parts();
+        let mut status = tonic::Status::from_header_map(&parts.headers);
+        if status.is_none() {
+            while let Some(chunk) = body.data().await {
+                match chunk {
+                    Ok(c) => {
+                        let _ = body.flow_control().release_capacity(c.len());
+                    }
+                    Err(_) => return format!("reset {}", start.elapsed().as_nanos()),
+                }
+            }
+            match body.trailers().await {
+                Ok(Some(t)) => status = tonic::Status::from_header_map(&t),
+                Ok(None) => return format!("no-trailers {}", start.elapsed().as_nanos()),
+                Err(_) => return format!("reset {}", start.elapsed().as_nanos()),
+            }
+        }
+        let t = start.elapsed().as_nanos();
+        match status {
+            Some(st) if st.code() == tonic::Code::Ok => format!("inner {}", t),
+            Some(st) => format!("timeout {} {} {}", st.code() as i32, hex(st.message().as_bytes()), t),
+            None => format!("no-status {}", t),
+        }
+    };
+    match tokio::time::timeout(HORIZON, fut).await {
+        Ok(o) => o,
+        Err(_) => "pending".to_string(),
+    }
+}
+
+fn conn_case(s: Option<u128>, gap: Option<u128>, calls: Vec<(Caller, Option<u128>)>) -> String {
+    let mut reqs = Vec::new();
+    for (h, l) in &calls {
+        let Some(hv) = h.by_hand() else { return "not-a-header-value".into() };
+        reqs.push((hv, *l));
+    }
+    let rt = paused_rt();
+    rt.block_on(async move {
+        let (cli, srv) = tokio::io::duplex(64 * 1024);
+        let mut builder = tonic::transport::Server::builder();
+        if let Some(s) = s {
+            builder = builder.timeout(dur(s));
+        }
+        let router = builder.add_service(HdrSleepSvc);
+        let incoming = {
+            use tokio_stream::StreamExt;
+            tokio_stream::iter(vec![Ok::<_, std::io::Error>(DuplexConn(srv))]).chain(tokio_stream::pending())
+        };
+        tokio::spawn(async move {
+            let _ = router.serve_with_incoming(incoming).await;
+        });
+        // ONE connection for all requests
+        let Ok((h2c, conn)) = h2::client::handshake(cli).await else { return "connect-failed".to_string() };
+        tokio::spawn(async move {
+            let _ = conn.await;
+        });
+        let mut out: Vec<String> = Vec::new();
+        match gap {
+            None => {
+                for (hv, l) in reqs {
+                    out.push(one_h2_request(h2c.clone(), hv, l).await);
+                }
+            }
+            Some(g) => {
+                let mut tasks = Vec::new();
+                for (i, (hv, l)) in reqs.into_iter().enumerate() {
+                    let c = h2c.clone();
+                    tasks.push(tokio::spawn(async move {
+                        if g > 0 && i > 0 {
+                            tokio::time::sleep(dur(g * i as u128)).await;
+                        }
+                        one_h2_request(c, hv, l).await
+                    }));
+                }
+                for t in tasks {
+                    out.push(t.await.unwrap_or_else(|_| "panic".to_string()));
+                }
+            }
+        }
+        out.join(" | ")
+    })
+}
+
+pub fn gen_multi(tier: &str, rng: &mut Rng) -> Vec<String> {
+    let thorough = tier == "thorough";
+    let mut out = Vec::new();
+    let ms = 1_000_000u128;
+    let body = |calls: &[(String, Option<u128>)]| -> String {
+        calls.iter().map(|(c, l)| format!("{} {}", c, lat_tok(*l))).collect::<Vec<_>>().join(" ")
+    };
+    // every kind for one call sequence (`sample`: 1 in how many for the real-stack kinds)
+    let all_kinds = |out: &mut Vec<String>, rng: &mut Rng, conf: Option<u128>, calls: &[(String, Option<u128>)], gaps: &[u128], sample: u64| {
+        let b = body(calls);
+        out.push(format!("mw {} {}", opt_tok(conf), b));
+        for peer in ["silent", "routes"] {
+            if rng.chance(1, sample) {
+                out.push(format!("chan {} {} {}", peer, opt_tok(conf), b));
+            }
+            for g in gaps {
+                if rng.chance(1, sample) {
+                    out.push(format!("chano {} {} {} {}", peer, opt_tok(conf), g, b));
+                }
+            }
+        }
+        if rng.chance(1, sample) {
+            out.push(format!("conn {} {}", opt_tok(conf), b));
+        }
+        for g in gaps {
+            if rng.chance(1, sample) {
+                out.push(format!("conno {} {} {}", opt_tok(conf), g, b));
+            }
+        }
+    };
+    let d = |x: u128| (x * ms).to_string();
+    // corpus: the witness of seed C09e (= the Lean witness of C09_sticky_first_header_fails, in ms):
+    // nothing configured, a first call with a 100 ms deadline answered after 50 ms, then a call
+    // with no deadline / a longer one / behind a malformed one, answered after 350 ms or never
+    let first = (d(100), Some(50 * ms));
+    for second in [
+        ("none".to_string(), Some(350 * ms)),
+        (d(1000), Some(350 * ms)),
+        ("none".to_string(), None),
+        (raw_tok(&[b"+5S"]), Some(350 * ms)),
+    ] {
+        all_kinds(&mut out, rng, None, &[first.clone(), second.clone()], &[0, 10 * ms], 1);
+        // the first call still running (and cut at its own deadline) when the second is issued
+        all_kinds(&mut out, rng, None, &[(d(100), None), second.clone()], &[0, 10 * ms], 1);
+        // the deadline arrives as a raw header value
+        all_kinds(&mut out, rng, None, &[(raw_tok(&[b"100m"]), Some(50 * ms)), second], &[10 * ms], 1);
+    }
+    // three calls: the second one's longer deadline must not be replaced by the first one's either
+    all_kinds(&mut out, rng, None, &[(d(100), Some(50 * ms)), (d(300), Some(200 * ms)), ("none".to_string(), Some(350 * ms))], &[10 * ms], 1);
+    // ---- grid: two calls, (configured, caller 1, caller 2) × latencies around every deadline in sight
+    let grid: [Option<u128>; 4] = [None, Some(20 * ms), Some(100 * ms), Some(1000 * ms)];
+    for conf in [None, Some(50 * ms), Some(200 * ms)] {
+        for c1 in grid {
+            for c2 in grid {
+                let marks: Vec<u128> = [conf, c1, c2].into_iter().flatten().collect();
+                let mut l2s: Vec<u128> = vec![5 * ms, 5_000 * ms];
+                for m in &marks {
+                    l2s.push(m - ms);
+                    l2s.push(m + ms);
+                }
+                l2s.sort();
+                l2s.dedup();
+                let mut l2s: Vec<Option<u128>> = l2s.into_iter().filter(|l| !marks.contains(l)).map(Some).collect();
+                l2s.push(None);
+                for l1 in [Some(5 * ms), None] {
+                    for l2 in &l2s {
+                        let calls = [(opt_tok(c1), l1), (opt_tok(c2), *l2)];
+                        all_kinds(&mut out, rng, conf, &calls, &[7 * ms], if thorough { 1 } else { 8 });
+                    }
+                }
+            }
+        }
+    }
+    // ---- random sequences of 2..=5 calls (whole ms; no latency on any deadline of the sequence)
+    let nrand = if thorough { 700 } else { 60 };
+    for _ in 0..nrand {
+        let n = rng.range(2, 5) as usize;
+        let conf = if rng.chance(1, 2) { None } else { Some(rng.range(1, 400) as u128 * ms) };
+        let callers: Vec<Option<u128>> = (0..n).map(|_| if rng.chance(1, 3) { None } else { Some(rng.range(1, 400) as u128 * ms) }).collect();
+        let marks: Vec<u128> = callers.iter().copied().chain([conf]).flatten().collect();
+        let calls: Vec<(String, Option<u128>)> = callers
+            .iter()
+            .map(|c| {
+                let l = match rng.below(5) {
+                    0 => None,
+                    1 => Some(rng.below(500) as u128 * ms),
+                    _ if !marks.is_empty() => {
+                        let m = *rng.pick(&marks);
+                        let k = rng.range(1, 3) as u128 * ms;
+                        Some(if rng.chance(1, 2) { m + k } else { m.saturating_sub(k) })
+                    }
+                    _ => Some(rng.below(500) as u128 * ms),
+                };
+                let l = l.map(|mut l| {
+                    while marks.contains(&l) {
+                        l += ms;
+                    }
+                    l
+                });
+                (opt_tok(*c), l)
+            })
+            .collect();
+        let gap = *rng.pick(&[0, ms, 10 * ms, 30 * ms, 150 * ms]);
+        all_kinds(&mut out, rng, conf, &calls, &[gap], if thorough { 1 } else { 3 });
+    }
+    // distinct case lines, first occurrence kept
+    let mut seen = std::collections::HashSet::new();
+    out.retain(|c| seen.insert(c.clone()));
     out
 }
